@@ -24,10 +24,10 @@ import (
 // ---------------- static description ----------------
 
 type natSpec struct {
-	Mode   int               `json:"mode"` // 0 NAPT, 1 1:1
-	MapB   int               `json:"map"`
-	FilB   int               `json:"filter"`
-	Pairs  map[string]string `json:"pairs,omitempty"` // wan ip -> local ip (1:1)
+	Mode  int               `json:"mode"` // 0 NAPT, 1 1:1
+	MapB  int               `json:"map"`
+	FilB  int               `json:"filter"`
+	Pairs map[string]string `json:"pairs,omitempty"` // wan ip -> local ip (1:1)
 }
 
 type routerSpec struct {
@@ -71,15 +71,15 @@ type tcase struct {
 // ---------------- runtime model ----------------
 
 type routerM struct {
-	spec    routerSpec
-	idx     int
-	r       *vnet.Router
-	ipnet   *net.IPNet
-	parent  *routerM
-	depth   int
-	wanIPs  []string
-	nics    map[string]interface{} // ip -> *hostM | *routerM
-	flush   *sockM
+	spec   routerSpec
+	idx    int
+	r      *vnet.Router
+	ipnet  *net.IPNet
+	parent *routerM
+	depth  int
+	wanIPs []string
+	nics   map[string]interface{} // ip -> *hostM | *routerM
+	flush  *sockM
 	// learned NAT state
 	out map[string]*mapM // key: src|mapKey(dst)
 	in  map[string]*mapM // key: ext
@@ -164,6 +164,7 @@ type world struct {
 	sends   map[string][]*sendEv // key router|src -> FIFO of sends not yet matched to a tag
 	allSend []*sendEv
 	phase   int32
+	stale   []net.PacketConn // closed predecessor sockets (stale handles)
 }
 
 func (w *world) build() error {
@@ -298,7 +299,16 @@ func (w *world) failedBinds(rng *rand.Rand, r *res.Result) {
 	}
 }
 
+// closeStale closes the stale handles of closed predecessor sockets once more.
+func (w *world) closeStale(r *res.Result) {
+	for _, pc := range w.stale {
+		_ = pc.Close()
+		r.Count("closes_of_stale_predecessor_sockets", 1)
+	}
+}
+
 func (w *world) openSockets() error {
+	prng := rand.New(rand.NewSource(w.c.Seed + 6))
 	for i, ss := range w.c.Socks {
 		hm := w.hosts[ss.Host]
 		ip := ss.IP
@@ -312,6 +322,14 @@ func (w *world) openSockets() error {
 		var conn net.PacketConn
 		var err error
 		connected := ""
+		if ss.Port != 0 && prng.Intn(4) == 0 {
+			// a predecessor on the same address, closed before the real socket is bound; its stale handle is closed a
+			// second time later (closeStale), which must not disturb the socket that owns the address by then
+			if pc, perr := hm.net.ListenUDP("udp", vn.UDP(ip, ss.Port)); perr == nil {
+				pc.Close()
+				w.stale = append(w.stale, pc)
+			}
+		}
 		if ss.Connect != "" {
 			var k int
 			fmt.Sscanf(ss.Connect, "sock:%d", &k)
@@ -936,6 +954,7 @@ func runCase(c *tcase, r *res.Result) (*viol, string) {
 		return nil, "inconclusive: sockets: " + err.Error()
 	}
 	w.failedBinds(rand.New(rand.NewSource(c.Seed+5)), r)
+	w.closeStale(r)
 	var idc uint64
 	resolve := func(s *sockM, d string, rng *rand.Rand) *net.UDPAddr {
 		switch {
